@@ -1,0 +1,50 @@
+//go:build verif
+
+// Contracts for package headers, read by the verification-condition generator
+// in /verif (govc).  This file is comment-only: with the build tag off it does
+// not exist for the compiler, with it on it declares nothing.
+
+package headers
+
+//@ spec func specIsDigit(c int) bool = '0' <= c && c <= '9'
+//@ spec func specIsSp(c int) bool = c == ' ' || c == '\t'
+//@ spec func specDecVal(s string, n int) int = n <= 0 ? 0 : (specIsDigit(s[n-1]) ? 10*specDecVal(s, n-1) + (s[n-1]-'0') : specDecVal(s, n-1))
+
+//@ props C07 C16
+//@ func parseRangeNumber
+//@   nopanic
+//@   ensures !ok ==> num == 0 && endIndex == 0
+//@   ensures (len(numStr) == 0 || numStr[0] == '-' || !(specIsDigit(numStr[0]) || specIsSp(numStr[0]))) ==> !ok
+//@   ensures !ok ==> (len(numStr) == 0 || numStr[0] == '-' || !(specIsDigit(numStr[0]) || specIsSp(numStr[0])) || (exists n int :: 0 < n && n <= len(numStr) && specDecVal(numStr, n) > MaxInt64))
+//@   ensures ok ==> 0 < endIndex && endIndex <= len(numStr)
+//@   ensures ok ==> (forall j int :: 0 <= j && j < endIndex ==> specIsDigit(numStr[j]) || specIsSp(numStr[j]))
+//@   ensures ok && endIndex < len(numStr) ==> !(specIsDigit(numStr[endIndex]) || specIsSp(numStr[endIndex]))
+//@   ensures ok ==> num >= 0
+//@   ensures [C07] ok ==> num == specDecVal(numStr, endIndex)
+//@   loop 1 invariant index == rangepos && rangepos <= len(numStr)
+//@   loop 1 invariant forall j int :: 0 <= j && j < rangepos ==> specIsDigit(numStr[j]) || specIsSp(numStr[j])
+//@   loop 1 invariant num >= 0 && num == specDecVal(numStr, rangepos)
+//@   loop 1 invariant len(numStr) > 0 && numStr[0] != '-'
+//@   loop 1 decreases len(numStr) - rangepos
+
+//@ props C07 C16
+//@ func validateRange
+//@   nopanic
+//@   ensures result == nil <==> (0 <= start && start <= end && end < dataSize)
+//@   ensures result != nil ==> result == ErrRangeValueOutOfBounds
+
+//@ props C07 C16
+//@ func rangeHeader.SliceSize
+//@   nopanic
+//@   ensures err == nil ==> 0 <= start && start <= end && end < dataSize
+//@   ensures err == nil && r.start >= 0 && r.end >= 0 ==> start == r.start && end == r.end
+//@   ensures err == nil && r.start >= 0 && r.end == -1 ==> start == r.start && end == dataSize - 1
+//@   ensures err == nil && r.start == -1 && r.end >= 0 ==> start == dataSize - r.end && end == dataSize - 1
+//@   ensures r.start == -1 && r.end == -1 ==> err != nil
+
+//@ props C07 C16
+//@ func parseRangeHeader
+//@   nopanic
+//@   ensures result1 == nil ==> len(rangeStr) >= 7 && rangeStr[0:6] == "bytes="
+//@   ensures result1 == nil ==> result0.start >= -1 && result0.end >= -1 && !(result0.start == -1 && result0.end == -1)
+//@   ensures result1 != nil ==> result0.start == 0 && result0.end == 0
